@@ -29,10 +29,20 @@ func genTxVis(g *gen, n int, tier string, w *bufio.Writer) {
 		fmt.Fprintf(w, "# case %d\n", c)
 		if c%4 == 1 {
 			// a commit that the log rejects (one entry larger than a log record): no trace, lock released
-			fmt.Fprintf(w, "failcommit small=%d big=%d pos=%d sync=%d\n", g.pick(1, 3, 20), 32760+g.intn(9000), g.pick(0, 1, 2), g.pick(0, 2))
+			// (number of small entries, position of the oversized one in key order = order in the log batch): mostly from a table of
+			// combinations that matter (first / last / middle of small and of very large write sets), sometimes drawn
+			table := [][2]int{{1, 0}, {3, 3}, {20, 20}, {1100, 1100}, {2500, 1250}, {20, 10}, {1100, 0}, {2500, 2500}, {1100, 1030}}
+			small, pos := 0, 0
+			if k := g.intn(len(table) + 2); k < len(table) {
+				small, pos = table[k][0], table[k][1]
+			} else {
+				small = g.pick(1, 3, 20, 1100, 2500)
+				pos = g.pick(0, 1, 2, small/2, small, small)
+			}
+			fmt.Fprintf(w, "failcommit small=%d big=%d pos=%d sync=%d\n", small, 32760+g.intn(9000), pos, g.pick(0, 2))
 			continue
 		}
-		fmt.Fprintf(w, "vis seed=%d keys=%d rounds=%d readers=%d\n", g.intn(1<<30), g.pick(2, 3, 8, 40), g.pick(30, 60, 120), g.pick(1, 2, 4))
+		fmt.Fprintf(w, "vis seed=%d keys=%d rounds=%d readers=%d\n", g.intn(1<<30), g.pick(2, 3, 8, 40), g.pick(30, 60, 120), g.pick(2, 3, 4))
 	}
 }
 
@@ -57,7 +67,7 @@ func txVisScenario(r *runner, ws []string) (out string) {
 	var hmu sync.Mutex
 	rng := rand.New(rand.NewSource(int64(seed)))
 	verifhook.Set(func(site string) {
-		if site == "mgr.batch.entry" || site == "mgr.batch.afterLog" || site == "mgr.get.afterMem" {
+		if site == "mgr.batch.entry" || site == "mgr.batch.afterLog" || site == "mgr.get.afterMem" || site == "tx.commit.beforeApply" {
 			hmu.Lock()
 			d := time.Duration(rng.Intn(150)) * time.Microsecond
 			hmu.Unlock()
@@ -79,6 +89,29 @@ func txVisScenario(r *runner, ws []string) (out string) {
 	var wg sync.WaitGroup
 	for i := 0; i < readers; i++ {
 		wg.Add(1)
+		if i%2 == 1 {
+			// a reader inside a read-only transaction: it excludes every commit for as long as it is open, so both reads show
+			// the SAME transaction
+			go func() {
+				defer wg.Done()
+				for !done.Load() {
+					tx, err := x.e.BeginTransaction(true)
+					if err != nil {
+						continue
+					}
+					a, err1 := tx.Get(keys[0])
+					time.Sleep(time.Duration(20) * time.Microsecond)
+					b, err2 := tx.Get(keys[m-1])
+					tx.Commit()
+					if (err1 == nil) != (err2 == nil) || (err1 == nil && ver(a) != ver(b)) {
+						bad.Store(fmt.Sprintf("read-only transaction read first-key=v%d last-key=v%d (it saw a part of a committed transaction)", ver(a), ver(b)))
+						return
+					}
+					reads.Add(2)
+				}
+			}()
+			continue
+		}
 		go func() {
 			defer wg.Done()
 			for !done.Load() {
@@ -146,7 +179,7 @@ func failCommitScenario(r *runner, ws []string) (out string) {
 	}
 	var keys []string
 	for i := 0; i <= small; i++ {
-		k := fmt.Sprintf("f%02d", i)
+		k := fmt.Sprintf("f%05d", i)
 		keys = append(keys, k)
 		v := []byte("s")
 		if i == pos%(small+1) {
